@@ -100,10 +100,15 @@ func verifCountParts(ctx contextT, tx *dbsql.Tx, id partstore.PartId) (int64, er
 	return n, err
 }
 
+// verifRealSQL: the reconciliation and in-use statements (LEFT JOIN / GROUP BY /
+// UNION ALL / NOT EXISTS) are interpreted by sqlsym; the reference
+// implementations below are kept for comparison runs only
+const verifRealSQL = true
+
 type verifRegistry struct{ partregistry.Repository }
 
 func (r *verifRegistry) FindReconciliation(ctx contextT, tx *dbsql.Tx) ([]partregistry.Reconciliation, error) {
-	if verifNative() {
+	if verifNative() || verifRealSQL {
 		return r.Repository.FindReconciliation(ctx, tx)
 	}
 	var out []partregistry.Reconciliation
